@@ -122,6 +122,13 @@ const (
 // which the engine decides without the solver); the alphabet is set by construction and
 // cross-checked against goalign's own detection in vfSame.
 func vfBuild(n, L, mode int, syms bool, rot, cs int) vfCase {
+	return vfBuildPin(n, L, mode, syms, rot, cs, false)
+}
+
+// vfBuildPin: with pin, residue (0,0) of a nucleotide alignment is a nucleotide-only letter (U or O),
+// which makes goalign's alphabet detection take one path instead of forking on "could also be
+// protein" (at every residue in align.DetectAlphabet(string), used by the Clustal parser).
+func vfBuildPin(n, L, mode int, syms bool, rot, cs int, pin bool) vfCase {
 	names := vfNames(n, rot)
 	var al align.Alignment
 	if mode == vfNt {
@@ -136,6 +143,8 @@ func vfBuild(n, L, mode int, syms bool, rot, cs int) vfCase {
 			c := nondetByte()
 			if mode == vfAa && i == 0 && j == 0 {
 				assume(vfAaOnly(c))
+			} else if pin && mode == vfNt && i == 0 && j == 0 {
+				assume(vfNtOnly(c))
 			} else {
 				assume(vfResidueOK(c, mode, syms))
 			}
@@ -244,7 +253,7 @@ var vfFullL = []int{1, 2, 3, 9, 10, 11, 49, 50, 51, 59, 60, 61, 79, 80, 81, 119,
 
 func vfFasta(shapes []vfShape, syms, full bool) {
 	n, L, mode, rot, _ := vfChoose(shapes, false, full)
-	c := vfBuild(n, L, mode, syms, rot, csMixed)
+	c := vfBuildPin(n, L, mode, syms, rot, csMixed, L > 11 && !full)
 	w := fasta.WriteAlignment(c.al)
 	got, err := fasta.NewParser(vfReader(w)).Parse()
 	verifReach("fasta round trip")
@@ -277,7 +286,7 @@ func vfPhylip(shapes []vfShape, syms, full bool, opts []int) {
 	n, L, mode, rot, _ := vfChoose(shapes, false, full)
 	opt := vfPick(opts)
 	strict, oneline, noblock := opt&1 != 0, opt&2 != 0, opt&4 != 0
-	c := vfBuild(n, L, mode, syms, rot, csMixed)
+	c := vfBuildPin(n, L, mode, syms, rot, csMixed, L > 11 && !full)
 	w := phylip.WriteAlignment(c.al, strict, oneline, noblock)
 	got, err := phylip.NewParser(vfReader(w), strict).Parse()
 	verifReach("phylip round trip")
@@ -323,7 +332,7 @@ func H_C02_phylip_multi() {
 	w := ""
 	for a := 0; a < k; a++ {
 		sh := vfStreamShapes[(r+a)%len(vfStreamShapes)]
-		cases[a] = vfBuild(sh.n, sh.L, a%2, false, a, csMixed)
+		cases[a] = vfBuildPin(sh.n, sh.L, a%2, false, a, csMixed, sh.L > 11)
 		w += phylip.WriteAlignment(cases[a].al, strict, false, false)
 	}
 	ch := &align.AlignChannel{Achan: make(chan align.Alignment, 15)}
@@ -374,7 +383,7 @@ func vfNoKeywordRow(c vfCase) {
 
 func vfNexus(shapes []vfShape, syms, full, mixed, exclKeywords bool) {
 	n, L, mode, rot, cs := vfChoose(shapes, !mixed, full)
-	c := vfBuild(n, L, mode, syms, rot, cs)
+	c := vfBuildPin(n, L, mode, syms, rot, cs, L > 11 && !full)
 	if exclKeywords {
 		vfNoKeywordRow(c)
 	}
@@ -424,14 +433,16 @@ func H_C02_nexus_nokw_thorough() { vfNexus(vfGrid(3, vfNexusThoroughL), true, tr
 
 // The Clustal writer adds a conservation line computed from the residues (* identical column,
 // : . conserved amino-acid groups): with several rows of unrestricted residues every column forks
-// on that symbol. Rows alternate upper/lower case in the long shapes, so nucleotide columns are
-// never identical; data-dependent conservation is checked on short rows (H_C02_clustal_cons).
+// on that symbol, and for protein rows the writer compares every residue with ~60 group letters.
+// Long shapes are therefore nucleotide rows in alternating case (no column is identical) with a
+// nucleotide-only first residue (see vfBuildPin); one long protein row is checked separately and
+// data-dependent conservation on short rows (H_C02_clustal_cons).
 func vfClustal(shapes []vfShape, syms, full, mixed bool, modes []int) {
 	n, L, mode, rot, cs := vfChoose(shapes, !mixed, full)
 	if len(modes) == 1 {
 		mode = modes[0]
 	}
-	c := vfBuild(n, L, mode, syms, rot, cs)
+	c := vfBuildPin(n, L, mode, syms, rot, cs, L > 11 && !full)
 	w := clustal.WriteAlignment(c.al)
 	got, err := clustal.NewParser(vfReader(w)).Parse()
 	verifReach("clustal round trip")
@@ -439,23 +450,38 @@ func vfClustal(shapes []vfShape, syms, full, mixed bool, modes []int) {
 }
 
 // H_C02_clustal: Clustal writer -> parser is the identity, one row (blocks of 50 columns).
-// bounds: shapes {1x1, 1x2, 1x50, 1x51, 1x101}; letters of either family, the row in one case (upper or lower)
-// outside: more rows (H_C02_clustal_rows, H_C02_clustal_cons), mixed case and symbols (H_C02_clustal_syms)
+// bounds: shapes {1x1, 1x2} (both families, both cases) and {1x50, 1x51, 1x101} (nucleotide family, first residue U or O, row in one case)
+// outside: more rows (H_C02_clustal_rows, H_C02_clustal_cons), long protein rows (H_C02_clustal_aa), mixed case and symbols (H_C02_clustal_syms)
 func H_C02_clustal() {
-	vfClustal([]vfShape{{1, 1}, {1, 2}, {1, 50}, {1, 51}, {1, 101}}, false, false, false, []int{vfNt, vfAa})
+	if nondetRange(0, 1) == 0 {
+		vfClustal([]vfShape{{1, 1}, {1, 2}}, false, false, false, []int{vfNt, vfAa})
+	} else {
+		vfClustal([]vfShape{{1, 50}, {1, 51}, {1, 101}}, false, false, false, []int{vfNt})
+	}
 }
 
+// H_C02_clustal_aa: one protein row across the block boundary.
+// bounds: shape 1x51, protein family (first residue protein-only), upper case
+// outside: other lengths (thorough)
+func H_C02_clustal_aa() { vfClustal([]vfShape{{1, 51}}, false, false, false, []int{vfAa}) }
+
 // H_C02_clustal_rows: several rows across a block boundary; nucleotides, rows alternate upper/lower case.
-// bounds: shapes {2x1, 3x2, 2x50, 2x51}; nucleotide family; row i and row i+1 in different cases (so no column is identical)
+// bounds: shapes {2x1, 3x2} (both case starts) and {2x50, 2x51} (first residue U or O); nucleotide family; row i and row i+1 in different cases (so no column is identical)
 // outside: identical columns and protein conservation groups (H_C02_clustal_cons, short rows)
 func H_C02_clustal_rows() {
 	vfClustal([]vfShape{{2, 1}, {3, 2}, {2, 50}, {2, 51}}, false, false, false, []int{vfNt})
 }
 
 // H_C02_clustal_cons: two rows, unrestricted residues: the conservation line (* : . blank) varies with the data.
-// bounds: shapes {2x1, 2x2}; letters of either family in either case at every position
+// bounds: 2x1 (both families) and 2x2 (nucleotide family); letters in either case at every position
 // outside: longer rows (the path count grows as 4^L)
-func H_C02_clustal_cons() { vfClustal([]vfShape{{2, 1}, {2, 2}}, false, false, true, []int{vfNt, vfAa}) }
+func H_C02_clustal_cons() {
+	if nondetRange(0, 1) == 0 {
+		vfClustal([]vfShape{{2, 1}}, false, false, true, []int{vfNt, vfAa})
+	} else {
+		vfClustal([]vfShape{{2, 2}}, false, false, true, []int{vfNt})
+	}
+}
 
 // H_C02_clustal_syms: symbols - * ? and mixed case in one row.
 // bounds: shapes {1x1, 1x2, 1x3}; letters in either case or - * ?
@@ -472,13 +498,15 @@ func H_C02_clustal_thorough() { vfClustal(vfGrid(1, vfFullL), true, true, false,
 // H_C02_clustal_rows_thorough: full length list, 2..3 rows of nucleotides in alternating case.
 // bounds: n in 2..3, L in the full list, nucleotide family, rows alternate upper/lower case
 //verif: tier=thorough
-func H_C02_clustal_rows_thorough() { vfClustal(vfGrid(3, vfFullL)[len(vfFullL):], false, true, false, []int{vfNt}) }
+func H_C02_clustal_rows_thorough() {
+	vfClustal(vfGrid(3, vfFullL)[len(vfFullL):], false, true, false, []int{vfNt})
+}
 
 // ------------------------------------------------------------------ Stockholm
 
 func vfStockholm(shapes []vfShape, syms, full, mixed bool) {
 	n, L, mode, rot, cs := vfChoose(shapes, !mixed, full)
-	c := vfBuild(n, L, mode, syms, rot, cs)
+	c := vfBuildPin(n, L, mode, syms, rot, cs, L > 11 && !full)
 	w := stockholm.WriteAlignment(c.al)
 	got, err := stockholm.NewParser(vfReader(w)).Parse()
 	verifReach("stockholm round trip")
